@@ -3,6 +3,7 @@
 package main
 
 import (
+	"fmt"
 	"sort"
 	"strconv"
 
@@ -22,11 +23,12 @@ var gammas = []uint32{g88, g32}
 
 func us(x uint32) string { return strconv.FormatUint(uint64(x), 10) }
 
-// scalarRes evaluates the Go original of a scalar function.
-func scalarRes(fn string, a []uint32) (string, bool) {
-	need := map[string]int{"reduceOnce": 1, "add": 2, "sub": 2, "neg": 1, "mul": 2, "power2Round": 1, "scalePower2": 1,
+var need = map[string]int{"reduceOnce": 1, "add": 2, "sub": 2, "neg": 1, "mul": 2, "power2Round": 1, "scalePower2": 1,
 		"divBy2Gamma2": 2, "decompose": 2, "highBits": 2, "lowBits": 2, "makeHint": 3, "useHint": 3, "centeredAbs": 1,
 		"centeredMax": 2, "zeta": 1}
+
+// scalarRes evaluates the Go original of a scalar function.
+func scalarRes(fn string, a []uint32) (string, bool) {
 	if n, ok := need[fn]; !ok || n != len(a) {
 		return "", false
 	}
@@ -259,28 +261,42 @@ func scalarSection(o *hlib.Out, seed uint64) {
 	if !hlib.Thorough() {
 		return
 	}
-	// thorough tier: strided sweeps over the whole domain; the residue class visited depends on
-	// the seed, so seven seeds cover every element of Z_q for the stride-7 functions.
-	sweep := func(hi uint32, stride uint32, f func(a uint32)) {
+	// thorough tier: EXHAUSTIVE over Z_q for neg, power2Round, scalePower2, centeredAbs and
+	// decompose (both γ2; highBits/lowBits are its projections), over [0, 2q) for reduceOnce;
+	// strided for the rest (the residue class visited depends on the seed). Sweep lines are
+	// distinct by construction and are not entered into the distinct-hash set (memory).
+	sweep := func(fn string, hi uint32, stride uint32, extra ...uint32) {
 		o.Case()
+		args := make([]uint32, 1+len(extra))
+		copy(args[1:], extra)
+		line := make([]byte, 0, 64)
+		n := 0
 		for a := uint32(seed % uint64(stride)); a < hi; a += stride {
-			f(a)
+			args[0] = a
+			line = append(line[:0], "D s "...)
+			line = append(line, fn...)
+			for _, x := range args {
+				line = append(line, ' ')
+				line = strconv.AppendUint(line, uint64(x), 10)
+			}
+			r, _ := scalarRes(fn, args)
+			o.Emit(string(line), r, false)
+			n++
 		}
+		o.Hist["s/"+fn] += n
+		o.Hist[fmt.Sprintf("s-sweep/%s stride %d", fn, stride)] += n
 	}
 	const s1, s2 = 7, 61
 	for _, fn := range unary {
-		fn := fn
-		sweep(q, s1, func(a uint32) { emitS(o, fn, a) })
+		sweep(fn, q, 1)
 	}
-	sweep(2*q, s1, func(a uint32) { emitS(o, "reduceOnce", a) })
+	sweep("reduceOnce", 2*q, 1)
 	for _, g := range gammas {
-		g := g
-		sweep(q, s1, func(a uint32) { emitS(o, "decompose", a, g) })
-		sweep(q, s1, func(a uint32) { emitS(o, "useHint", a, g, 1) })
-		sweep(q, s2, func(a uint32) { emitS(o, "useHint", a, g, 0) })
-		sweep(q, s2, func(a uint32) { emitS(o, "highBits", a, g) })
-		sweep(q, s2, func(a uint32) { emitS(o, "lowBits", a, g) })
-		sweep(q+g, s2, func(a uint32) { emitS(o, "divBy2Gamma2", a, g) })
+		sweep("decompose", q, 1, g)
+		sweep("useHint", q, s1, g, 1)
+		sweep("useHint", q, s2, g, 0)
+		sweep("highBits", q, s2, g)
+		sweep("lowBits", q, s2, g)
+		sweep("divBy2Gamma2", q+g, s2, g)
 	}
-	o.Count("s/thorough-sweeps")
 }
